@@ -656,7 +656,11 @@ func (w *worker) expireEvent(iter storage.Iter, rawKey []byte, rev uint64) error
 			if err = vit.Next(context.Background()); err != nil {
 				break
 			}
-			versions = append(versions, vit.Key())
+			// the byte range also holds the records of any other raw key that starts with this one followed by
+			// the separator: only this Event's own versions go with it
+			if userKey, _, decodeErr := w.Decode(vit.Key()); decodeErr == nil && bytes.Equal(userKey, rawKey) {
+				versions = append(versions, vit.Key())
+			}
 		}
 		_ = vit.Close()
 		if err == io.EOF {
